@@ -508,12 +508,25 @@ func freshSliceS(v ssa.Value, d int, seen map[ssa.Value]bool) bool {
 		if b, ok := x.Call.Value.(*ssa.Builtin); ok && b.Name() == "append" {
 			return freshSliceS(x.Call.Args[0], d+1, seen)
 		}
-		// a module function every return of which is a fresh slice
+		// a module function every return of which is a fresh slice - or a slice grown from one of its parameters, when
+		// the argument passed for that parameter is fresh
 		if h := sx.Callee(x); h != nil && h.Blocks != nil && x.Parent() != nil && h.Pkg == x.Parent().Pkg {
 			rets := sx.Returns(h)
 			for _, r := range rets {
-				if len(r.Results) != 1 || !freshSliceS(r.Results[0], d+1, seen) {
+				if len(r.Results) != 1 {
 					return false
+				}
+				if freshSliceS(r.Results[0], d+1, seen) {
+					continue
+				}
+				roots, ok := sliceParamRoots(h, r.Results[0], map[ssa.Value]bool{}, 0)
+				if !ok || len(roots) == 0 {
+					return false
+				}
+				for j := range roots {
+					if j >= len(x.Call.Args) || !freshSliceS(x.Call.Args[j], d+1, seen) {
+						return false
+					}
 				}
 			}
 			return len(rets) > 0
@@ -535,6 +548,47 @@ func freshSliceS(v ssa.Value, d int, seen map[ssa.Value]bool) bool {
 		}
 	}
 	return false
+}
+
+// sliceParamRoots: v, inside h, is built by phis and appends on top of fresh slices and/or parameters of h;
+// returns the indices of those parameters (ok=false when something else contributes the backing array).
+func sliceParamRoots(h *ssa.Function, v ssa.Value, seen map[ssa.Value]bool, d int) (map[int]bool, bool) {
+	out := map[int]bool{}
+	if d > 8 {
+		return nil, false
+	}
+	if seen[v] {
+		return out, true
+	}
+	seen[v] = true
+	switch x := v.(type) {
+	case *ssa.Parameter:
+		for i, q := range h.Params {
+			if q == x {
+				out[i] = true
+				return out, true
+			}
+		}
+		return nil, false
+	case *ssa.MakeSlice, *ssa.Const:
+		return out, true
+	case *ssa.Phi:
+		for _, e := range x.Edges {
+			r, ok := sliceParamRoots(h, e, seen, d+1)
+			if !ok {
+				return nil, false
+			}
+			for k := range r {
+				out[k] = true
+			}
+		}
+		return out, true
+	case *ssa.Call:
+		if b, ok := x.Call.Value.(*ssa.Builtin); ok && b.Name() == "append" {
+			return sliceParamRoots(h, x.Call.Args[0], seen, d+1)
+		}
+	}
+	return nil, false
 }
 
 // ---------------------------------------------------------------------------
